@@ -28,7 +28,10 @@ CodeViol(r) ==
                 LET p == RelayParts(r.s) IN
                 IF p.leg < 0 \/ r.dist.v \in (p.legs * (p.leg - p.tol))..(p.legs * p.leg) THEN {} ELSE {"relay_distance_not_legs_times_leg"})
         \cup (IF ~r.unit.ok \/ ~r.kind.ok THEN {} ELSE
-                IF (r.kind.v \in {"throw", "jump"}) = (r.unit.v = "metres") THEN {} ELSE {"unit_and_kind_disagree"})
+                \* (only the four kinds the graders know are tied to a unit; a kind for relays, multi-events or fixed-duration
+                \* races - benign F10 - may carry whatever unit suits it: the property asks for a value, not for which)
+                IF (r.kind.v \in {"throw", "jump"} /\ r.unit.v # "metres") \/ (r.kind.v \in {"track", "road"} /\ r.unit.v = "metres")
+                THEN {"unit_and_kind_disagree"} ELSE {})
 PairViol(r) ==     \* adjacent entries of the tuple-sorted list, distances below 100 km
     (IF KeyLess(r.a.key, r.b.key) \/ KeyEq(r.a.key, r.b.key) THEN {} ELSE {"list_not_sorted_by_tuple_key"})
     \cup (IF KeyLess(r.a.key, r.b.key) = LexLess(r.a.tkey, r.b.tkey) /\ KeyEq(r.a.key, r.b.key) = (r.a.tkey = r.b.tkey)
